@@ -1182,6 +1182,7 @@ type Bit struct {
 	desc       string
 	ref        string
 	Position   int
+	posSet     bool // the bit states its position
 	extensions []*Extension
 }
 
@@ -1191,6 +1192,7 @@ type Enum struct {
 	desc       string
 	ref        string
 	val        int
+	valSet     bool // the enum states its value
 	ifs        []*IfFeature
 	extensions []*Extension
 }
